@@ -6,7 +6,7 @@ direction `View` (forward: out-chains / `to`; reverse: in-chains / `from`) and h
 (`alg`), for ALL graphs: no bound on size; `V.WF` is the chain well-formedness of the abstract graph
 (checked at run time by the driver on every case, `Graph.wfB`; see notes/search.md).
 -/
-import AgdbSearch.Lemmas.Terminate
+import AgdbSearch.Lemmas.GraphWF
 namespace AgdbSearch
 
 /-- The unconditional traversal: `SearchImpl::search` with a handler answering `Continue(true)`. -/
@@ -92,6 +92,104 @@ theorem C14_terminates {σ : Type} (alg : Alg) (V : View) (hwf : V.WF) (U : List
     · exact absurd h hn
     · exact h
   · intro si hsi; simp [gsInit] at hsi; subst hsi; exact hoU
+
+/-! ### The same on the abstract graph of the database -/
+
+/-- Direction of a search: `search().from(o)` follows out-chains, `search().to(o)` in-chains. -/
+def Graph.view (g : Graph) (fwd : Bool) : View := if fwd then g.viewFwd else g.viewRev
+
+theorem Graph.view_wf (g : Graph) (h : g.wfB = true) (fwd : Bool) : (g.view fwd).WF := by
+  cases fwd
+  · exact wf_viewRev g h
+  · exact wf_viewFwd g h
+
+theorem Graph.view_universe (g : Graph) (h : g.wfB = true) (fwd : Bool) : Universe (g.view fwd) g.elements := by
+  cases fwd
+  · exact universe_rev g h
+  · exact universe_fwd g h
+
+theorem Graph.origin_ok (g : Graph) (h : g.wfB = true) (fwd : Bool) (o : Int) (ho : g.isElem o = true) :
+    0 < o ∨ 0 < (g.view fwd).target o := by
+  have w := g.wfacts h
+  by_cases hp : 0 < o
+  · exact Or.inl hp
+  · right
+    have hes := isElem_neg_edge g ho hp
+    have hends := edge_ends g w hes
+    cases fwd
+    · have := g.nodeSlot_pos w hends.1
+      simp [Graph.view, Graph.viewRev]; omega
+    · have := g.nodeSlot_pos w hends.2
+      simp [Graph.view, Graph.viewFwd]; omega
+
+/-- **C14 on the database graph**: for every well-formed graph, every existing origin (node or edge), both
+directions and both algorithms, `search()` without conditions returns the origin first, nothing twice, and
+exactly the reachable elements. -/
+theorem C14_graph_exact (g : Graph) (hwf : g.wfB = true) (alg : Alg) (fwd : Bool) (o : Int)
+    (ho : g.isElem o = true) (xs : List Int)
+    (h : searchGraph false g alg (g.view fwd) (evalConds false g .nil) o 0 0 = .ok xs) :
+    xs.head? = some o ∧ xs.Nodup ∧ ∀ x, x ∈ xs ↔ Reach (g.view fwd) o x := by
+  rw [C14_model_is_search g alg _ o ho] at h
+  exact C14_exact alg _ (g.view_wf hwf fwd) o (g.origin_ok hwf fwd o ho) g.fuel xs h
+
+theorem le_sum_of_mem {α : Type} (f : α → Nat) : ∀ (l : List α) (x : α), x ∈ l → f x ≤ (l.map f).sum
+  | [], _, h => by simp at h
+  | y :: ys, x, h => by
+    rcases List.mem_cons.mp h with rfl | h
+    · simp
+    · have := le_sum_of_mem f ys x h
+      simp; omega
+
+theorem unvisW_nil (V : View) : ∀ U : List Int, unvisW V U [] = (U.map (elemW V)).sum
+  | [] => rfl
+  | y :: ys => by simp [unvisW, unvisW_nil V ys]
+
+theorem length_dropWhile_le {α : Type} (p : α → Bool) : ∀ l : List α, (l.dropWhile p).length ≤ l.length
+  | [] => by simp
+  | x :: xs => by
+    simp only [List.dropWhile_cons]
+    split
+    · have := length_dropWhile_le p xs; simp; omega
+    · simp
+
+/-- **Terminates on the database graph**: `Graph.fuel` is enough for every search (any handler: conditions,
+limit, offset), from every existing origin, in both directions — the model never answers `outOfFuel`. -/
+theorem C14_graph_terminates {σ : Type} (g : Graph) (hwf : g.wfB = true) (alg : Alg) (fwd : Bool) (o : Int)
+    (ho : g.isElem o = true) (h : HandlerFn σ) (st : σ) :
+    run (gstep false alg (g.view fwd)) h g.fuel (gsInit o) st ≠ .outOfFuel := by
+  have w := g.wfacts hwf
+  have hoU : o ∈ g.elements := (C18_iter_mem g o).mpr ho
+  refine C14_terminates alg _ (g.view_wf hwf fwd) g.elements (g.view_universe hwf fwd) o hoU
+    (g.origin_ok hwf fwd o ho) h st g.fuel ?_
+  -- the potential of the initial state is at most twice the total element weight of this direction
+  have hsum : potential (g.view fwd) g.elements (gsInit o) ≤ 2 * (g.elements.map (elemW (g.view fwd))).sum := by
+    unfold potential gsInit
+    simp only [workW, List.map_cons, List.map_nil, List.sum_cons, List.sum_nil, Nat.add_zero, unvisW_nil]
+    have : itemW (g.view fwd) ⟨o, 0⟩ ≤ (g.elements.map (elemW (g.view fwd))).sum := by
+      by_cases hp : 0 < o
+      · have h1 := le_sum_of_mem (elemW (g.view fwd)) g.elements o hoU
+        have : 1 ≤ elemW (g.view fwd) o := by unfold elemW; split <;> omega
+        simp only [itemW, hp, if_true]; omega
+      · have hes := isElem_neg_edge g ho hp
+        have hends := edge_ends g w hes
+        -- the owner of the origin edge is an existing node; its weight covers the chain
+        have hown : (g.view fwd).owner o ∈ g.elements ∧ 0 < (g.view fwd).owner o := by
+          cases fwd
+          · have := g.nodeSlot_pos w hends.2
+            exact ⟨(C18_iter_mem g _).mpr (isElem_node g w hends.2), by simp [Graph.view, Graph.viewRev]; omega⟩
+          · have := g.nodeSlot_pos w hends.1
+            exact ⟨(C18_iter_mem g _).mpr (isElem_node g w hends.1), by simp [Graph.view, Graph.viewFwd]; omega⟩
+        have h1 := le_sum_of_mem (elemW (g.view fwd)) g.elements _ hown.1
+        have h2 : (chain (g.view fwd) o).length ≤ ((g.view fwd).succ ((g.view fwd).owner o)).length :=
+          length_dropWhile_le _ _
+        simp only [itemW, hp, if_false]
+        simp only [elemW, hown.2, if_true] at h1
+        omega
+    omega
+  have hfuel : 2 * (g.elements.map (elemW (g.view fwd))).sum < g.fuel := by
+    unfold Graph.fuel
+    cases fwd <;> simp only [Graph.view, if_true, Bool.false_eq_true, if_false] <;> omega
+  omega
 
 /-! ### Order. Statements kept in full; proved part below. -/
 
